@@ -272,7 +272,7 @@ def _canary(ctx, plan):
         try:
             vs, _ = verify_contract(ctx.world, ctx.src, ctx.db, c2, ctx.lemmas, timeout_ms=5000)
             ens = [v for v in vs if ".ensures" in v.name]
-            out[q] = {"false_postconditions": len(ens), "refuted": sum(v.status == "refuted" for v in ens)}
+            out[q] = {"false_postconditions": len(ens), "refuted": sum(v.status != "discharged" for v in ens)}
         except Exception as ex:
             out[q] = {"error": str(ex)}
     return out
@@ -301,6 +301,8 @@ def decide_and_report(prop, plan, ctx, verdicts, xchk, oracle, canary, audit, st
     # cross-check disagreements: the executable spec and the real code differ on a concrete input
     xmism = {q: r for q, r in xchk.items() if r.get("mismatches")}
     oracle_fails = (oracle or {}).get("failures", []) if isinstance(oracle, dict) else []
+
+    tried_diff = set()
 
     def is_known(name):
         for k in known["known"]:
@@ -362,7 +364,27 @@ def decide_and_report(prop, plan, ctx, verdicts, xchk, oracle, canary, audit, st
             else:
                 undecided.append((v, "supporting obligation refuted; property oracle found no failing input"))
         else:
-            undecided.append((v, v.note))
+            # neither discharged nor refuted (solver unknown, or the function left the verified subset): bounded stand-in —
+            # run the real function against the executable contract on generated inputs; a concrete disagreement is a replayed failure
+            q = getattr(v, "contract", None)
+            found = None
+            if q and v.kind == "R" and q not in tried_diff:
+                tried_diff.add(q)
+                try:
+                    c = ctx.db.get(q)
+                    if c.harness is None and c.verify:
+                        n, mm = RP.differential(ctx.src, c, n=500, seed=ctx.seed + 3, atoms={"allow_ob": True})
+                        if mm:
+                            found = {"function": q, "failing_input": mm[0]["input"], "expected_by_contract": mm[0].get("expected"), "observed_real": mm[0].get("observed")}
+                except Exception as ex:
+                    found = None
+            if found is not None and own:
+                rep = {"obligation": v.name, "kind": v.kind, "where": v.where, "note": v.note + " [decided by the bounded stand-in: real function vs executable contract]",
+                       "contract_replay": found}
+                path = RP.write_replay(prop, v.name, rep)
+                violations.append((v, path, ""))
+            else:
+                undecided.append((v, v.note))
     # failures found only by the concrete side (oracle / cross-check) with all obligations discharged:
     if oracle_fails and not violations:
         k = None
